@@ -2,7 +2,7 @@
 CHECK = {
     "pkg": "overlay/tio", "files": ["overlay/tio/c24_test.go"], "run": "^TestC24",
     "quick": {"scale": 1, "shards": 1, "timeout": 600},
-    "thorough": {"scale": 8, "shards": 8, "timeout": 1500},
+    "thorough": {"scale": 12, "shards": 8, "timeout": 1500},
     "rule": "rapid-built superpackets in the form a vnet-hdr tun read returns them: IPv4 (IHL 5-15, DF/no DF, IDs near wrap) / "
             "IPv6 (0-2 extension headers) x TCP (data offset 5-15, all flag mixes, seq near 2^32) / UDP; geometry by "
             "construction: typical MSS, tiny (1-60, below the header length), small, single segment, header-only, 200-3000 "
